@@ -39,13 +39,16 @@ OBLIGATIONS.append(dict(name="tar2sqfs_process_tarball_n1", harness="harness/C13
     reach=["success", "failure", "root"],
     functions=["process_tarball, create_node_and_repack_data, set_root_attribs, copy_xattr, write_file (bin/tar2sqfs/src/process_tarball.c)"],
     bound="1 archive entry of symbolic kind (file, directory, symlink, hard link, device; root or named), any 64 bit time stamp, 0..2 xattrs, every step may fail; no --root-becomes"))
-def fe(bs, napp, tiers):
-    return dict(name="frontend_block_split_bs%d_n%d" % (bs, napp), harness="harness/C01_frontend.c", sources=["lib/sqfs/src/inode.c", "lib/util/src/alloc.c"],
-        included_sources=["lib/sqfs/src/block_processor/frontend.c"], incdirs=["lib/sqfs/src/block_processor"], defines=dict(BS=bs, NAPP=napp), unwind=2 * bs + 6,
-        tiers=tiers, timeout=300, fp_map={"submit": ["submit_stub"], "get_status": ["status_stub"]}, reach=["failed", "dont_fragment", "fragment", "whole_blocks"],
+def fe(bs, sizes, tiers):
+    napp = len(sizes)
+    return dict(name="frontend_block_split_bs%d_%s" % (bs, "_".join(str(x) for x in sizes)), harness="harness/C01_frontend.c", sources=["lib/sqfs/src/inode.c", "lib/util/src/alloc.c"],
+        included_sources=["lib/sqfs/src/block_processor/frontend.c"], incdirs=["lib/sqfs/src/block_processor"], defines=dict(BS=bs, NAPP=napp, SIZES=",".join(str(x) for x in sizes)), unwind=2 * bs + 6, unwindset={"get_new_block.0": 1},
+        tiers=tiers, timeout=300, fp_map={"submit": ["submit_stub"], "get_status": ["status_stub"]}, reach=["failed"], allow_unreached=True,
         functions=["sqfs_block_processor_begin_file, sqfs_block_processor_append, sqfs_block_processor_end_file, get_new_block, add_sentinel_block, enqueue_block (lib/sqfs/src/block_processor/frontend.c)"],
-        bound="block size scaled to %d bytes, a file of 1..%d symbolic bytes delivered in %d appends of symbolic sizes, any user flags, no back-pressure, submit may fail" % (bs, 2 * bs + 1, napp))
-OBLIGATIONS += [fe(2, 2, ["quick", "thorough"]), fe(2, 3, ["thorough"]), fe(3, 2, ["thorough"])]
+        bound="block size scaled to %d bytes, a file delivered in appends of %s bytes (content symbolic), any user flags, no back-pressure, submit may fail" % (bs, "+".join(str(x) for x in sizes)))
+_FE_Q = [(1, 1), (2, 1), (1, 2), (2, 3), (4,)]
+_FE_T = [(a, b) for a in (1, 2, 3, 4) for b in (1, 2, 3, 4) if a + b <= 5 and (a, b) not in _FE_Q] + [(1, 1, 1), (1, 2, 2), (2, 2, 1), (5,), (3,)]
+OBLIGATIONS += [fe(2, s, ["quick", "thorough"]) for s in _FE_Q] + [fe(2, s, ["thorough"]) for s in _FE_T] + [fe(3, (2, 2), ["thorough"]), fe(3, (3, 4), ["thorough"]), fe(3, (1, 5), ["thorough"])]
 OBLIGATIONS.append(dict(name="packfile_keywords", harness="harness/C01_packfile.c",
     sources=["lib/util/src/parse_int.c", "lib/util/src/canonicalize_name.c", "lib/util/src/split_line.c", "lib/util/src/alloc.c"], stubs=["stubs/vp_ctype.c", "stubs/vp_sysmacros.c"],
     included_sources=["bin/gensquashfs/src/fstree_from_file.c"], incdirs=["bin/gensquashfs/src"], unwind=12, tiers=["quick", "thorough"], timeout=300, reach=["done"],
